@@ -93,6 +93,8 @@ Eval vm_compute in (length cases, length bad, map fst (firstn 3 bad)).
         lr_, br_ = res["loading_rows"], res["bore_rows"]
         ks = sorted(set(list(range(0, len(loads), 29)) + [len(loads) - 1]))
         samp = "; ".join(f"({k}%nat, {qlist(lr_[1 + k])})" for k in ks if 1 + k < len(lr_))
+        gr_ = res.get("g_rows")
+        gcmp = "true" if gr_ is None else (f"list_eqb (list_eqb qeqb) (g_table_rows {qlist(gfunc['x'])} {qlist(gfunc['y'])} {qlist(gfunc['ybhw'])}) [" + "; ".join(qlist(r) for r in gr_[1:]) + "]")
         files.append(("tables", HEADER + "From Coq Require Import String.\n" + f"""Definition loads : list Q := {qlist(loads)}.
 Definition rows := hourly_table_rows loads.
 Definition samples : list (nat * list Q) := [{samp}].
@@ -101,9 +103,10 @@ Definition coords : list (Q * Q) := [{"; ".join(f"({q(c[0])}, {q(c[1])})" for c 
 Definition brows : list (list Q) := [{"; ".join(qlist(r) for r in br_[1:])}].
 Definition hdr_ok : bool := list_eqb String.eqb hourly_table_header [{"; ".join('"' + x + '"%string' for x in lr_[0])}]
                          && list_eqb String.eqb bore_table_header [{"; ".join('"' + x + '"%string' for x in br_[0])}].
+Definition grows_ok : bool := {gcmp}.
 Definition bad := filter (fun c => negb (ok c)) samples.
-Eval vm_compute in ((List.length samples + 3)%nat, (List.length bad + (if Nat.eqb (List.length rows) (Z.to_nat {len(lr_) - 1}) then 0 else 1)
-   + (if list_eqb (list_eqb qeqb) (bore_table_rows coords) brows then 0 else 1) + (if hdr_ok then 0 else 1))%nat, map (fun c => Z.of_nat (fst c)) (firstn 3 bad)).
+Eval vm_compute in ((List.length samples + 4)%nat, ((if grows_ok then 0 else 1) + (List.length bad + (if Nat.eqb (List.length rows) (Z.to_nat {len(lr_) - 1}) then 0 else 1)
+   + (if list_eqb (list_eqb qeqb) (bore_table_rows coords) brows then 0 else 1) + (if hdr_ok then 0 else 1)))%nat, map (fun c => Z.of_nat (fst c)) (firstn 3 bad)).
 """))
         tot = badn = 0
         for name, rc, out, err in chk.coq_eval_many(files):
